@@ -469,6 +469,12 @@ HOSTILE = ['long-tag', 'long-value', 'no-equals', 'no-soh', 'truncate', 'group-c
            'random', 'early-checksum', 'no-trailer', 'dup-tokens', 'huge-tag-number', 'empty-value', 'tail-garbage']
 
 
+def _tagnum(base, t):
+    """tag number of a token, -1 when it is not a short digit string (an earlier mutation may have made it thousands of digits long)"""
+    st, q, en = t
+    return int(base[st:q]) if 0 < q - st <= 9 and base[st:q].isdigit() else -1
+
+
 def hostile(rng, base, cls, s, pairs):
     toks = tokens_of(base)
     b = bytearray(base)
@@ -494,12 +500,12 @@ def hostile(rng, base, cls, s, pairs):
     elif cls == 'truncate':
         b = b[:rng.randrange(0, len(b))]
     elif cls == 'group-count':
-        groups = [t for t in toks if t[1] > 0 and base[t[0]:t[1]].isdigit() and int(base[t[0]:t[1]]) in s.by_num and s.by_num[int(base[t[0]:t[1]])].type == 'NUMINGROUP']
+        groups = [t for t in toks if _tagnum(base, t) in s.by_num and s.by_num[_tagnum(base, t)].type == 'NUMINGROUP']
         if groups:
             st, q, en = rng.choice(groups)
             b[q + 1:en - 1] = rng.choice([b'0', b'1', b'2', b'99', b'65535', b'2147483647', b'4294967295', b'-1', b'-2147483648', b'x', b'', b'1e9', b'00000000000000000001'])
     elif cls == 'length-lies':
-        lens = [t for t in toks if t[1] > 0 and base[t[0]:t[1]].isdigit() and int(base[t[0]:t[1]]) in pairs]
+        lens = [t for t in toks if _tagnum(base, t) in pairs]
         if lens:
             st, q, en = rng.choice(lens)
             b[q + 1:en - 1] = rng.choice([b'0', b'1', b'2046', b'2047', b'2048', b'2049', b'8000', b'65535', b'65536', b'2147483647', b'4294967295', b'4294967296', b'-1', b'-5', b'x', b'', str(len(base)).encode(), str(len(base) - en).encode(), str(max(0, len(base) - en - 8)).encode()])
